@@ -42,6 +42,7 @@ def run(ctx):
     pipeline(ctx, facts)
     sat_merge(ctx, facts)
     partial_nonzero(ctx, facts)
+    chunk_cover(ctx, facts)
     prf_wiring(ctx, facts)
     from rules import C07, C11
     C07.aggregate(ctx, facts)        # bucket aggregation: grow by the carry while narrower than the output, then saturate
@@ -458,3 +459,96 @@ def prf_wiring(ctx, facts):
         ctx.ob("WIRE-prf", "records=ceil(rows/chunk)", ok7, "both stages are sized div_round_up(input_rows.len(), CHUNK)" if ok7 else "a stage's record count is not ceil(rows / chunk size)", site_of(main, sp[0][0]) if sp else site_of(main))
     finally:
         flow.CLOSURE_DEFS = old
+
+
+def chunk_cover(ctx, facts):
+    """process_slice_by_chunks hands every element of the slice to the processing function exactly once, in order."""
+    from rules.C13 import ieval, NoEval
+    ctx.rule("CHUNK-cover: SliceChunkProcessor::next_chunk, evaluated from its extracted slice ranges and guards for slice lengths 0..3N, N = 1..5: under its guard the full-chunk arm takes exactly the N elements [N*pos, N*(pos+1)) inside the slice and advances pos by one; the remainder arm (pos == len/N, remainder != 0) takes [N*pos, len), whose length equals the constructor's remainder_len = len % N, labels it Partial(that length) and clears the remainder")
+    P = "helpers::stream::chunks::"
+    b = facts.bodies.get(P + "SliceChunkProcessor::<'a, T, K, F, Fut, N>::next_chunk")
+    cons = facts.bodies.get(P + "process_slice_by_chunks")
+    if b is None or cons is None:
+        return ctx.missing("CHUNK-cover", "SliceChunkProcessor::next_chunk / process_slice_by_chunks")
+    ctx.count(bodies=2)
+    dom = b.dominators()
+    eg = flow.edge_guards(b)
+    idxs = flow.find_calls(b, re.compile(r"ops::Index::index$"))
+    full = [(bb, t) for bb, t in idxs if (lambda e: e[0] == "agg" and e[1] == ("std::ops::Range", "Range"))(flow.expr_of(b, t["args"][1], max_depth=10))]
+    rest = [(bb, t) for bb, t in idxs if (lambda e: e[0] == "agg" and e[1] == ("std::ops::RangeFrom", "RangeFrom"))(flow.expr_of(b, t["args"][1], max_depth=10))]
+    rem_init = None
+    for bb, idx, s in cons.iter_assigns():
+        r = s["r"]
+        if r["k"] == "agg" and (r.get("adt") or "").endswith("SliceChunkProcessor"):
+            names = [f["name"] for f in facts.adts[r["adt"]]["variants"][0]["fields"]]
+            ops = dict(zip(names, r["ops"]))
+            rem_init = flow.expr_of(cons, ops["remainder_len"], max_depth=8) if "remainder_len" in ops else None
+            pos_init = flow.expr_of(cons, ops["pos"], max_depth=4) if "pos" in ops else None
+    if len(full) != 1 or len(rest) != 1 or rem_init is None:
+        return ctx.missing("CHUNK-cover", "one slice[a..b], one slice[a..] and the constructor's remainder_len")
+    fr = flow.expr_of(b, full[0][1]["args"][1], max_depth=10)
+    rr = flow.expr_of(b, rest[0][1]["args"][1], max_depth=10)
+    lo_f, hi_f = fr[2]
+    lo_r = rr[2][0]
+    gf = [f for tgt, f in eg if flow.dominates(dom, tgt, full[0][0])]
+    gr = [f for tgt, f in eg if flow.dominates(dom, tgt, rest[0][0])]
+    leaves = set()
+    for e in (lo_f, hi_f, lo_r, rem_init) + tuple(x for f in gf + gr for x in f[1:] if x is not None):
+        for n in malsec._leaves(e, "const"):
+            if isinstance(n[1], str) and n[1].startswith("Ty(usize, N"):
+                leaves.add(n)
+    def first(e, kind, name):
+        for n in malsec._leaves(e, kind):
+            if n[-1] == name:
+                return n
+        return None
+    POS = first(lo_f, "proj", "pos")
+    REM = next((x for f in gr for x in f[1:] if x is not None and x[0] == "proj" and x[-1] == "remainder_len"), None)
+    LEN_b = next((n for f in gf for x in f[1:] if x is not None for n in malsec.walk_calls(x) if n[1].endswith("<impl [T]>::len")), None)
+    LEN_c = next((n for n in malsec.walk_calls(rem_init) if n[1].endswith("<impl [T]>::len")), None)
+    OPS = {"Ge": lambda a, c: a >= c, "Gt": lambda a, c: a > c, "Le": lambda a, c: a <= c, "Lt": lambda a, c: a < c, "Eq": lambda a, c: a == c, "Ne": lambda a, c: a != c}
+    bad = None
+    n = 0
+    try:
+        if None in (POS, REM, LEN_b, LEN_c) or not leaves:
+            raise NoEval("pos / remainder_len / slice.len() / N leaves")
+        if pos_init != ("const", 0):
+            bad = "the processor does not start at chunk 0"
+        for N in range(1, 6):
+            for L in range(0, 3 * N + 1):
+                rem0 = ieval(rem_init, {LEN_c: L, **{k: N for k in leaves}})
+                for pos in range(0, L // N + 2):
+                    for rem in (0, rem0):
+                        env = {POS: pos, REM: rem, LEN_b: L, **{k: N for k in leaves}}
+                        def holds(gs):
+                            return all(OPS[op](ieval(l, env), ieval(r, env)) for op, l, r in gs if op in OPS)
+                        n += 1
+                        if holds(gf):
+                            lo, hi = ieval(lo_f, env), ieval(hi_f, env)
+                            if not (lo == N * pos and hi == lo + N and hi <= L) and bad is None:
+                                bad = f"len {L}, N {N}, pos {pos}: the full-chunk arm takes [{lo}, {hi}), expected [{N * pos}, {N * pos + N}) inside the slice"
+                        if holds(gr) and rem == rem0:
+                            lo = ieval(lo_r, env)
+                            if not (lo == N * pos and L - lo == rem and 0 < rem < N) and bad is None:
+                                bad = f"len {L}, N {N}, pos {pos}: the remainder arm takes [{lo}, {L}) = {L - lo} element(s) but is labelled Partial({rem})"
+                        if holds(gf) and holds(gr) and bad is None:
+                            bad = f"len {L}, N {N}, pos {pos}: both arms apply"
+                # every element is reached: the full arm applies for pos = 0..L//N-1 and the remainder arm at pos = L//N iff L % N != 0
+                for pos in range(L // N):
+                    env = {POS: pos, REM: rem0, LEN_b: L, **{k: N for k in leaves}}
+                    if not all(OPS[op](ieval(l, env), ieval(r, env)) for op, l, r in gf if op in OPS) and bad is None:
+                        bad = f"len {L}, N {N}: whole chunk {pos} is never produced"
+                env = {POS: L // N, REM: rem0, LEN_b: L, **{k: N for k in leaves}}
+                takes_rest = all(OPS[op](ieval(l, env), ieval(r, env)) for op, l, r in gr if op in OPS)
+                if takes_rest != (L % N != 0) and bad is None:
+                    bad = f"len {L}, N {N}: the last {L % N} element(s) are {'not ' if not takes_rest else ''}produced as a remainder chunk"
+    except NoEval as ex:
+        bad = f"cannot evaluate ({ex})"
+    ctx.ob("CHUNK-cover", "ranges-tile-the-slice", bad is None, f"full chunks and the remainder tile [0, len) ({n} grid points)" if bad is None else bad, site_of(b, full[0][0]))
+    # state updates
+    inc = [s for bb, idx, s in b.iter_assigns() if any(isinstance(e, list) and e[0] == "f" and e[2] == "pos" for e in s["p"][1:])]
+    oki = len(inc) == 1 and "o" in inc[0]["r"] and flow.expr_of(b, inc[0]["r"]["o"], max_depth=8) == ("bin", "Add", POS, ("const", 1)) if POS else False
+    rp = flow.find_calls(b, re.compile(r"mem::replace$"))
+    okr = len(rp) == 1 and flow.dominates(dom, rest[0][0], rp[0][0]) or (len(rp) == 1 and flow.dominates(dom, rp[0][0], rest[0][0]))
+    okr = okr and flow.expr_of(b, rp[0][1]["args"][1]) == ("const", 0) and flow.expr_of(b, rp[0][1]["args"][0], max_depth=8)[-1] == "remainder_len"
+    ctx.ob("CHUNK-cover", "state-advances", bool(oki and okr), "pos += 1 per full chunk; the remainder is cleared when it is handed out" if oki and okr else "pos is not advanced by exactly one per full chunk, or the remainder is not cleared when taken (a chunk is produced twice or skipped)", site_of(b))
